@@ -1,4 +1,5 @@
 import CsVerif.Model.C05
+import CsVerif.Gen.PyC2
 /-! Line-protocol driver for the C05 model.
 
 The primitives are NOT computed here.  Every line that needs them carries an *oracle table*:
@@ -172,6 +173,49 @@ def step : List String → String
   | ["sfr", ct, sig] =>
     match bytesTok ct, bytesTok sig with
     | some ct, some sig => showPackets (iterServerPacket (some (ct ++ sig)))
+    | _, _ => "bad-op"
+  -- the definitions translated from the source text (Gen/PyC2.lean), run with the same oracle primitives (no call log)
+  | ["gpad", d] =>
+    match bytesTok d with
+    | some d => showPy showBytes (Gen.PyC2.pad d 16)
+    | none => "bad-op"
+  | ["gpadto", bs, d] =>
+    match intTok bs, bytesTok d with
+    | some bs, some d => showPy showBytes (Gen.PyC2.pad d bs)
+    | _, _ => "bad-op"
+  | "gencd" :: d :: ak :: iv :: tbl =>
+    match bytesTok d, optTok bytesTok ak, bytesTok iv, parseTable tbl with
+    | some d, some ak, some iv, some tbl => showPy showBytes (Gen.PyC2.encrypt_data (oracleCrypto tbl).aesCbcEnc d ak iv)
+    | _, _, _, _ => "bad-op"
+  | "gdecd" :: d :: ak :: iv :: tbl =>
+    match bytesTok d, optTok bytesTok ak, bytesTok iv, parseTable tbl with
+    | some d, some ak, some iv, some tbl => showPy showBytes (Gen.PyC2.decrypt_data (oracleCrypto tbl).aesCbcDec d ak iv)
+    | _, _, _, _ => "bad-op"
+  | "grfs" :: ct :: sig :: hk :: tbl =>
+    match bytesTok ct, bytesTok sig, bytesTok hk, parseTable tbl with
+    | some ct, some sig, some hk, some tbl =>
+      showPy (fun _ => "None") (Gen.PyC2.EncryptedPacket_raise_for_signature (oracleCrypto tbl).hmacSha256 ⟨ct, sig⟩ hk)
+    | _, _, _, _ => "bad-op"
+  | "genc" :: pt :: ak :: hk :: iv :: tbl =>
+    match bytesTok pt, optTok bytesTok ak, bytesTok hk, bytesTok iv, parseTable tbl with
+    | some pt, some ak, some hk, some iv, some tbl =>
+      let c := oracleCrypto tbl
+      showPy (fun p => showBytes p.ciphertext ++ " " ++ showBytes p.signature) (Gen.PyC2.encrypt_packet c.aesCbcEnc c.hmacSha256 pt ak hk iv)
+    | _, _, _, _, _ => "bad-op"
+  | "gdec" :: ct :: sig :: ak :: hk :: iv :: v :: tbl =>
+    match bytesTok ct, bytesTok sig, optTok bytesTok ak, optTok bytesTok hk, bytesTok iv, boolTok v, parseTable tbl with
+    | some ct, some sig, some ak, some hk, some iv, some v, some tbl =>
+      let c := oracleCrypto tbl
+      showPy showBytes (Gen.PyC2.decrypt_packet c.hmacSha256 c.aesCbcDec ⟨ct, sig⟩ ak hk iv v)
+    | _, _, _, _, _, _, _ => "bad-op"
+  | ["gdumps", ct, sig] =>
+    match bytesTok ct, bytesTok sig with
+    | some ct, some sig => showPy showBytes (Gen.PyC2.EncryptedPacket_dumps ⟨ct, sig⟩)
+    | _, _ => "bad-op"
+  | ["gderive", r, digest] =>
+    match bytesTok r, bytesTok digest with
+    | some r, some digest =>
+      showPy (fun p => showBytes p.1 ++ " " ++ showBytes p.2) (Gen.PyC2.derive_aes_hmac_keys (fun _ => digest) r)
     | _, _ => "bad-op"
   | _ => "bad-op"
 
